@@ -1239,8 +1239,22 @@ func runBlockCase(o *out.Out, r *gen.Rand, c int) {
 	if height > 1 {
 		round := uint32(r.Intn(3))
 		sigs := make([]types.CommitSig, nv)
+		kinds := make([]int, nv)
+		var tot, forBlock int64
 		for i := 0; i < nv; i++ {
-			switch r.Pick(8, 1, 1) {
+			kinds[i] = r.Pick(8, 1, 1)
+			tot += vset.Validators[i].VotingPower
+			if kinds[i] == 0 {
+				forBlock += vset.Validators[i].VotingPower
+			}
+		}
+		if 3*forBlock <= 2*tot && r.Chance(7, 8) { // mostly commits that carry +2/3
+			for i := range kinds {
+				kinds[i] = 0
+			}
+		}
+		for i := 0; i < nv; i++ {
+			switch kinds[i] {
 			case 0:
 				ts := base.Add(-time.Duration(1+r.Intn(5000)) * time.Millisecond)
 				v := signedVote(keyOf(i), i, height-1, round, kproto.PrecommitType, lastBID, ts)
@@ -1387,6 +1401,11 @@ func runBlockCase(o *out.Out, r *gen.Rand, c int) {
 		o.Count("block.base.state-valid")
 	} else {
 		o.Count("block.base.state-invalid")
+		es := baseState.Error()
+		if len(es) > 28 {
+			es = es[:28]
+		}
+		o.Count("block.base.state-invalid." + strings.ReplaceAll(es, " ", "_"))
 	}
 	baseCanon := canon(blk)
 	baseValid := baseVB == nil
@@ -1627,7 +1646,7 @@ func runBlockCase(o *out.Out, r *gen.Rand, c int) {
 type okEvidencePool struct{}
 
 func (okEvidencePool) Update(cstate.LatestBlockState, types.EvidenceList) {}
-func (okEvidencePool) CheckEvidence(types.EvidenceList) error              { return nil }
+func (okEvidencePool) CheckEvidence(types.EvidenceList) error             { return nil }
 
 func min(a, b int) int {
 	if a < b {
